@@ -432,15 +432,22 @@ def main():
         # the driver itself could not be built (a generated definition no longer elaborates)
         rc, out = sh(["lake", "build", "nbdrv"], cwd=LEAN, timeout=3000)
 
-    # 3. harness builds
+    # 3. harness builds.  Fall-backs (each only noted, never a violation by itself): without the optional
+    #    arbitrary/quickcheck features (a feature-pair compile break is C16's subject), then without the hooks.
     bins = {}
     hooks_on = True
     for profile in cfg.get("profiles", ["release"]):
         rc, out, binp = cargo_build(profile, hooks=True)
         if rc != 0:
+            rc, out2, binp = cargo_build(profile, hooks=True, features="std rand serde")
+            if rc == 0:
+                notes.append("harness built without the arbitrary/quickcheck features (%s): default feature set failed to compile" % profile)
+        if rc != 0:
             hooks_on = False
             notes.append("hooked build failed (%s); internal hooks unavailable, falling back to public API only" % profile)
             rc, out, binp = cargo_build(profile, hooks=False)
+            if rc != 0:
+                rc, out, binp = cargo_build(profile, hooks=False, features="std rand serde")
             if rc != 0:
                 machinery_errors.append("harness build failed (%s): %s" % (profile, out[-600:]))
                 continue
